@@ -76,6 +76,15 @@ def act(rng, c, n, kind):
         return {"c": c, "a": "tcp", "ft": -1, "addr": "c%d-%d-echo:80" % (c, n)}
     if kind == "udp":
         return {"c": c, "a": "udp", "addr": "c%d-%du:53" % (c, n)}
+    if kind in ("burst-good", "burst-bad", "burst-mixed"):
+        rs = []
+        for j in range(4):
+            good = kind == "burst-good" or (kind == "burst-mixed" and j % 2 == 1)
+            r = auth_req(rng, c, n, good)
+            r["auth"] = ("good" if good else "bad") + "-slow-c%d-%d-%d" % (c, n, j)
+            r["t"] = "/auth"
+            rs.append(r)
+        return {"c": c, "a": "burst", "burst": rs}
     return {"c": c, "a": "close"}
 
 
@@ -105,6 +114,9 @@ def gen(rng, tier):
         # T4: three connections, only the middle one is accepted, all try everything
         cases.append(history(rng, dict(rand_cfg(rng), udp=True), 3, rep % 2 == 0,
                              [(1, "good")] + [(c, k) for k in ("tcp", "udp") for c in (0, 1, 2)] + [(0, "bad"), (2, "bad"), (0, "tcp"), (2, "udp"), (1, "close")]))
+        # T5: concurrent auth attempts on ONE connection (authMutex): judged by the harness verdict only
+        cases.append(history(rng, dict(rand_cfg(rng), udp=True), 2, True,
+                             [(0, "burst-bad"), (0, "tcp"), (0, "burst-good"), (0, "tcp"), (0, "burst-mixed"), (1, "burst-mixed"), (1, "udp"), (1, "tcp"), (0, "close")]))
     for _ in range(34 * scale):
         nconn = rng.choice([1, 2, 2, 3, 3])
         n = rng.randint(5, 12)
@@ -114,12 +126,16 @@ def gen(rng, tier):
 
 
 def to_coq(c, o):
-    if not o.get("log"):
+    if not o.get("log") or any(a["a"] == "burst" for a in c["acts"]):
+        # concurrent requests on one connection: the per-connection order of the log is not the order of the
+        # model's atomic sections; these histories are judged by the harness verdict (incl. mutual exclusion)
         return None
     return c01lib.hist_term(c["cfg"], c["nconn"], o["log"])
 
 
 def klass(c, o):
+    if any(a["a"] == "burst" for a in c["acts"]):
+        return "concurrent-auth-burst(go verdict only)"
     return "conns=%d/%s/masq=%d/%s" % (c["nconn"], "concurrent" if c["par"] else "sequential", c["cfg"]["masq"],
                                       "udp" if c["cfg"]["udp"] else "noudp")
 
@@ -134,7 +150,9 @@ def nontrivial(c, o):
 
 
 def fingerprint(c, o):
-    return None
+    import re
+    why = o.get("why") or ""
+    return "c01:" + re.sub(r'"[^"]*"|\d+', "#", why)[:90]
 
 
 def search(ctx, disagreeing):
